@@ -12,7 +12,7 @@ from .common import hexf, unhex
 
 class RunCase:
     def __init__(self, directed, assort, init, K, recs, L, lt="u", wt="u", r=1, maxit=10, nconv=10, seed=1,
-                 prior=0.0, tr=0, script=(), aff=None):
+                 prior=0.0, tr=0, script=(), aff=None, vshape=0):
         self.__dict__.update(locals())
         del self.__dict__["self"]
         if aff is None:
@@ -21,7 +21,7 @@ class RunCase:
     def line(self, cid):
         return gen.case_run(cid, self.directed, self.assort, self.init, self.K, self.lt, self.recs, self.L,
                             self.wt, self.r, self.maxit, self.nconv, self.seed, self.prior, self.tr,
-                            self.script, self.aff)
+                            self.script, self.aff, self.vshape)
 
     def net(self):
         return ref.PyNet(self.recs, self.L, self.directed, real=(self.wt == "r"))
@@ -34,7 +34,7 @@ class RunCase:
     def describe(self):
         return {"variant": self.variant(), "K": self.K, "L": self.L, "records": self.recs, "label_type": self.lt,
                 "weight_type": self.wt, "r": self.r, "max_it": self.maxit, "n_conv": self.nconv, "seed": self.seed,
-                "prior_fill": self.prior, "affinity": self.aff, "script": list(self.script)}
+                "prior_fill": self.prior, "prior_v_shape": self.vshape, "affinity": self.aff, "script": list(self.script)}
 
 
 def random_run(rng, tr=0, variants=None, **over):
@@ -44,7 +44,8 @@ def random_run(rng, tr=0, variants=None, **over):
         directed, assort, init = rng.random() < 0.5, rng.random() < 0.5, rng.choice("rrf")
     K = over.pop("K", None) or rng.choice([2, 2, 3, 3, 4])
     lt, wt = over.pop("ltwt", None) or rng.choice([("u", "u")] * 4 + [("u", "r"), ("u", "l")])
-    recs, L = gen.records(rng, wt=wt, N=over.pop("N", None), L=over.pop("L", None), nrec=over.pop("nrec", None))
+    recs, L = gen.records(rng, wt=wt, N=over.pop("N", None), L=over.pop("L", None), nrec=over.pop("nrec", None),
+                          heavy=over.pop("heavy", None))
     aff = [rng.choice([rng.random(), rng.random(), 0.0]) for _ in range((K if assort else K * K) * L)]
     kw = dict(r=rng.randint(1, 3), maxit=rng.choice([1, 5, 12, 31]), nconv=rng.choice([1, 2, 10]),
               seed=rng.choice([rng.randint(0, 2 ** 33)] * 9 + [rng.choice([0, 1, 2 ** 31, 2 ** 32 - 1, 2 ** 32, 2 ** 32 + 1])]),
@@ -87,6 +88,27 @@ def flat_state(st, net, K, L, assort, directed):
 ALL_VARIANTS = [(d, a, i) for d in (True, False) for a in (False, True) for i in "rf"]
 
 
+def run_transition_check(chk, key, rc, net, where, u, v, w, nu, nv, nw, what="next state of the run != reference map(state) beyond 1e-10 relative"):
+    """state t -> state t+1 as observed inside a full call (realization/sweep in `where`) against the dense
+    reference equations (vlib/ref.py); returns False on a violation"""
+    st = ref.state_of(u, v if rc.directed else u, w, net.N, rc.K, rc.L, rc.assort, rc.directed)
+    nxt, amb = ref.ref_sweep(net, st, rc.K, rc.assort)
+    chk.monitor("run-transition reference evaluations")
+    if amb:
+        return True
+    ru, rv, rw = flat_state(nxt, net, rc.K, rc.L, rc.assort, rc.directed)
+    ok = ref.vec_close(nu, ru, 1e-10, 1e-300) and ref.vec_close(nw, rw, 1e-10, 1e-300) and \
+        (not rc.directed or ref.vec_close(nv, rv, 1e-10, 1e-300))
+    if not ok:
+        bad = [n for n, a, b in (("u", nu, ru), ("v", nv if rc.directed else [], rv if rc.directed else []), ("w", nw, rw))
+               if not ref.vec_close(a, b, 1e-10, 1e-300)]
+        chk.violate(key, "%s (%s, transition %s, differing: %s)" % (what, rc.variant(), where, ",".join(bad)),
+                    dict(rc.describe(), transition=where, state={"u": u, "v": v, "w": w},
+                         impl_next={"u": nu, "v": nv, "w": nw}, reference_next={"u": ru, "v": rv, "w": rw},
+                         case=rc.line("replay")))
+    return ok
+
+
 # ------------------------------------------------------------------------------ C02
 
 class C02(Check):
@@ -119,7 +141,8 @@ class C02(Check):
         # implementation's own state t (locality rule)
         runs = {}
         for n in range(n_traj):
-            rc = random_run(rng, tr=2, variants=ALL_VARIANTS, maxit=rng.choice([2, 3, 6, 12]), r=1)
+            # several realizations too: the update must be the same map in every realization of a call
+            rc = random_run(rng, tr=2, variants=ALL_VARIANTS, maxit=rng.choice([2, 3, 6, 12]), r=rng.choice([1, 1, 2, 3]))
             runs["tr%d" % n] = rc
         if self.bdir:
             outs, crashes = C.run_impl(self.bdir, [rc.line(cid) for cid, rc in runs.items()])
@@ -131,15 +154,15 @@ class C02(Check):
                 if not o or o.get("err") != ["0"]:
                     continue
                 net = rc.net()
-                seq = trace_states(rc, o, net)[0]
-                for t in range(len(seq) - 1):
-                    if rng.random() < 0.5 and t > 0:
-                        continue
-                    u, v, w = flat_state(seq[t][1], net, rc.K, rc.L, rc.assort, rc.directed)
-                    c2 = "%s.%d" % (cid, t)
-                    cases2.append(gen.case_sweep(c2, rc.directed, rc.assort, rc.K, rc.recs, rc.L, rc.wt, net.N, u, v, w))
-                    meta2[c2] = (rc, net, u, v, w, seq[t + 1][1])
-                    self.dist("transition:" + rc.variant())
+                for ri, seq in trace_states(rc, o, net).items():
+                    for t in range(len(seq) - 1):
+                        if rng.random() < 0.5 and t > 0:
+                            continue
+                        u, v, w = flat_state(seq[t][1], net, rc.K, rc.L, rc.assort, rc.directed)
+                        c2 = "%s.r%d.%d" % (cid, ri, t)
+                        cases2.append(gen.case_sweep(c2, rc.directed, rc.assort, rc.K, rc.recs, rc.L, rc.wt, net.N, u, v, w))
+                        meta2[c2] = (rc, net, u, v, w, seq[t + 1][1])
+                        self.dist("transition:" + rc.variant() + (":later-realization" if ri else ""))
             io2, mo2 = self.correspond("sweep@trace", cases2, keys=["loop_u", "loop_v", "loop_w"])
             for c2, (rc, net, u, v, w, nxt) in meta2.items():
                 o = io2.get(c2)
@@ -150,6 +173,8 @@ class C02(Check):
                 if floats(o["loop_u"]) != nu or floats(o["loop_w"]) != nw or (rc.directed and floats(o["loop_v"]) != nv):
                     self.corr_broken.append(("sweep@trace", c2, "loop vs run", "loop() on state t differs from the run's state t+1", ""))
                 self.ref_check(c2, o, rc.directed, rc.assort, rc.K, rc.recs, rc.L, rc.wt, net, u, v, w, "loop_")
+                # ... and the transition the run itself made (any realization) must be the published map as well
+                run_transition_check(self, "sweep-differs-from-published-update", rc, net, c2, u, v, w, nu, nv, nw)
         # (c) realistic size: the repository's own golden inputs (N=300, thousands of records) through model and code
         self.golden()
         self.cov["rule"] = ("random multigraphs (N 2-7, L 1-3, K 2-4; parallel records, weights 0/1/2/>2 and real, self-loops, "
